@@ -81,7 +81,8 @@ claim("C17", "proof",
       "first sample not before, closest with ties to the earlier, None iff no such sample, for queries as numbers or "
       "quantities in any time unit.",
       "S = 3 species (structure). Sortedness of times is the property's quantifier (instances at all read indices). L-IVT "
-      "(discrete intermediate value, needs induction) is an assumed lemma instance. A1.",
+      "(discrete intermediate value) is used as a Skolemised lemma instance and proved in Lean 4 + Mathlib (lemmas/Ivt.lean, "
+      "re-checked on every run). A1.",
       "deductive: symbolic execution of real source (search-loop rule, fold ghosts) + SMT", "DESIGN.md 3/C17")
 claim("C01", "proof",
       "Python realisations of the rate law are executed symbolically and compared with one spec function (mass action "
